@@ -83,6 +83,10 @@ func exploreCase(body func(fails *[]string, mu *sync.Mutex), opt sched.Options, 
 	return exploreCaseShard(body, opt, freeRuns, 0, 1, a)
 }
 
+// concPostCheck, when set, is evaluated after every controlled execution has ended
+// (all tasks, including goroutines spawned by the code under test, have finished).
+var concPostCheck func() string
+
 // exploreCaseShard explores one shard of the schedule tree (see sched.ExploreShard).
 func exploreCaseShard(body func(fails *[]string, mu *sync.Mutex), opt sched.Options, freeRuns int, shard, nshards int, a *run.Acc) (res concResult) {
 	res = concResult{byPreempt: map[int]int{}, outcomes: map[string]int{}}
@@ -129,6 +133,9 @@ func exploreCaseShard(body func(fails *[]string, mu *sync.Mutex), opt sched.Opti
 					break
 				}
 			}
+		}
+		if msg == "" && concPostCheck != nil {
+			msg = concPostCheck()
 		}
 		res.outcomes[strings.Join(r.Obs, "|")]++
 		if msg != "" && res.failure == "" {
